@@ -10,4 +10,19 @@ for f in sorted(glob.glob('/verif/evidence/*.json')):
         print("ok",f)
     except Exception as e:
         ok=False; print("BAD",f,str(e)[:300])
+# stale-finding lint: an OPEN known finding that no longer matches anything on the current tree
+# would silently absorb a future regression of the same shape (this happened with F-C04-026
+# after its fix landed): every open entry must be matched by the latest evidence of its property.
+op={}
+for f in ['/verif/findings/known.json']+sorted(glob.glob('/verif/findings/known.d/*.json')):
+    for e in json.load(open(f)):
+        if e.get('status')=='open': op[e['id']]=e
+matched=set()
+for f in glob.glob('/verif/evidence/*.json'):
+    for l in json.load(open(f))['coverage'].get('known_findings_matched') or []:
+        matched.add(l.split(' x')[0])
+for i in sorted(op):
+    if i not in matched:
+        ok=False; print("STALE open finding (matched by no case of the latest run):",i,op[i]['title'][:100])
+print("open findings:",len(op),"all matched" if all(i in matched for i in op) else "")
 sys.exit(0 if ok else 1)
